@@ -62,6 +62,10 @@ CHECKS.update({
    text="Exhaustive cross product on fresh worlds: store type x moment (idle, in-flight write parked at each of 6 points, in-flight replication parked at each of 5 points, in-flight Load parked in a fetch) x injection (Close, Close twice, instance Close, instance Close twice, Drop, Close then Drop) x with/without sibling database; then everything parked is released and every operation is issued on the closed object. State-based oracle at quiescence: all calls returned, no panic (worker crash attribution), surviving go-orbit-db goroutines equal the pre-open baseline, reopen+load yields all acknowledged data, Drop scoped to one database.",
    note="Trusted: sim environment, goroutine-status quiescence, attribution of goroutines by stack frames. The moment of the injection is controlled by gates/hooks; what runs after the release is scheduler-chosen.",
    tech="exhaustive enumeration of injection points (gated environment calls and hooked schedule points) x injections against the real implementation, state-based hang/leak detection"),
+ "C15": dict(cat="exploration", ref="5/C15",
+   text="Exhaustive cross product on fresh worlds with crash attribution: 13 persisted log shapes (single-writer chains 0..6, replicated-only, two/three heads, merged) x every limit from -2 to length+2 x three ways of giving the limit; reopen over the persisted cache and load. No panic/error/hang; exactly min(n,total) entries listed, in log order, containing the newest, and exactly the last n for single-writer logs.",
+   note="Trusted: sim environment; MaxHistory is given through the store constructor.",
+   tech="exhaustive enumeration of a finite input family (log shapes x limits) against the real implementation in crash-isolated workers"),
 })
 NOT_APPLICABLE = []
 ALL = ["C%02d" % i for i in range(1, 21)]
